@@ -35,11 +35,15 @@ def family(tier):
         fam.append(dict(variant=variant, vec_enabled=True, grp_enabled=True, depth=1, ndev=2, ngroups=2, write_veto=True))
     for variant in ("number-sexa3", "number-sexa5", "number-sexa8", "number-sexa9", "number-g"):
         fam.append(dict(variant=variant, vec_enabled=True, grp_enabled=True, depth=1, ndev=1, ngroups=2))
+    # the client's two connections are established with latency, in either order
+    for order in (("ctl", "blob"), ("blob", "ctl")):
+        for variant in ("blob", "text"):
+            fam.append(dict(variant=variant, vec_enabled=True, grp_enabled=True, depth=1, ndev=2, ngroups=2, connect=order))
     return fam
 
 
 def deployment_of(p):
-    return DP.deployment(**{k: v for k, v in p.items() if k != "write_veto"})
+    return DP.deployment(**{k: v for k, v in p.items() if k not in ("write_veto", "connect")})
 
 
 def shards(tier, seed):
@@ -64,6 +68,8 @@ def value_of(kind, i):
 def ops_for(p):
     kind = p["variant"].split("-")[0]
     out = [("assign", "a", 0), ("assign", "b", 1), ("set_value", "a", 1), ("state", "Busy"), ("vec-enabled", False), ("vec-enabled", True), ("grp-enabled", False), ("grp-enabled", True), ("by-assign",), ("handshake",)]
+    if kind == "text":
+        out += [("assign-empty", "a")]  # a text can be emptied again: the update carries an element without content
     if kind == "switch":
         out += [("bool", "b", True), ("bool", "a", False), ("selected", "C")]
     if kind not in ("light",):
@@ -97,7 +103,7 @@ class Run:
                 self.w.settle()
                 self.handshaken = {"DEV0"}
             else:
-                self.client = self.w.make_client()
+                self.client = self.w.make_client(p.get("connect"))
                 self.handshaken = {s["name"] for s in self.specs}
         except BaseException:
             self.w.close()
@@ -137,6 +143,8 @@ class Run:
         o = op[0]
         if o == "assign":
             getattr(vec, op[1]).value = value_of(self.kind, op[2])
+        elif o == "assign-empty":
+            getattr(vec, op[1]).value = ""
         elif o == "set_value":
             getattr(vec, op[1]).set_value(value_of(self.kind, op[2]))
         elif o == "bool":
@@ -272,7 +280,9 @@ def judge(run, emitted_after_def=None):
                           and run.w.delivery == "whole" and run.w.chooser is None and not run.w.cuts)
                 ok = DM.blob_equiv(val, e["value"]) or (val is None and not strict)
             else:
-                ok = val == (e["value"] if e["value"] != "" else None)
+                # an empty text and "no text" are the same value on the wire (an element without content); an in-process
+                # client is handed the empty string itself
+                ok = (val if val != "" else None) == (e["value"] if e["value"] != "" else None)
             if not ok:
                 fails.append(("element-value", d0 + ",kind=%s" % tv["kind"], "%s/%s.%s: client %r, device %r" % (dn, vn, n, vshort(val), vshort(e["value"]))))
     return fails
